@@ -297,7 +297,7 @@ pub fn run(tier: Tier) -> i32 {
     let mut ctx = Ctx::new("C12", tier);
     let pre = preflight();
     let seed = ctx.seed;
-    let per = tier.n(2500, 12_000);
+    let per = tier.n(2500, 60_000);
     let mut tally = ctx.par(32, |s| shard(seed, s, per));
     let plus = ctx.par(4, |s| plus_in_path(seed, s, tier.n(10, 200)));
     tally.merge(plus);
